@@ -123,7 +123,11 @@ class Parser:
         old = getattr(self, "no_struct", False)
         self.no_struct = no_struct
         try:
-            return self.p_and()
+            a = self.p_and()
+            if self.at(".."):
+                self.eat()
+                a = ("range", a, self.p_and())
+            return a
         finally:
             self.no_struct = old
 
@@ -220,6 +224,9 @@ class Parser:
                 idx = self.expr()
                 self.eat("]")
                 a = ("index", a, idx)
+            elif self.at("?"):
+                self.eat()
+                a = ("try", a)
             else:
                 return a
 
@@ -247,6 +254,9 @@ class Parser:
                 return ("tuple", items)
             self.eat(")")
             return first
+        if tok[0] == "op" and tok[1].startswith('"'):
+            self.eat()
+            return ("str",)
         if tok in (("op", "|"), ("op", "||")):
             params = []
             if self.eat()[1] == "|":
@@ -391,6 +401,8 @@ class Auto:
         self.self_name = self_name
 
     def pat(self, p):
+        if p[0] == "bool":
+            return p[1]
         if p[0] == "var":
             n = last(p[1])
             if n == "_":
@@ -1123,6 +1135,167 @@ def gen_strategies(src_dir, out, all_unavailable=False):
             depends=["acc2_is_in_x_range", "acc2_is_in_y_range", "acc2_get_index_left_of", "acc2_index_point"])
 
 
+# ------------------------------------------------------------------------------------------------ builders
+
+BKIND = {"ShapeError": ".shapeError", "NotEnoughData": ".notEnoughData", "Monotonic": ".monotonic", "ValueError": ".valueError"}
+
+
+class Build:
+    """the validation prefix of `Interp1DBuilder::build` / `Interp2DBuilder::build`: every statement up to the call of the strategy's
+    own `build`.  `axes`: Rust variable -> Lean list (`x` -> `xs`); the data array is seen through its shape only."""
+
+    def __init__(self, axes, result):
+        self.axes, self.result = axes, result
+        self.n = 0
+
+    def fresh(self, p):
+        self.n += 1
+        return f"{p}{self.n}"
+
+    def num(self, e):
+        """usize expression -> (effects, text)"""
+        k = e[0]
+        if k == "num":
+            return [], e[1]
+        if k == "method" and e[2] == "ndim" and e[1] == ("var", "data"):
+            return [], "shape.length"
+        if k == "method" and e[2] == "len" and e[1][0] == "var" and e[1][1] in self.axes:
+            return [], f"{self.axes[e[1][1]]}.length"
+        if k == "index" and e[1] == ("method", ("var", "data"), "shape", []) and e[2][0] == "num":
+            v = self.fresh("d")
+            i = e[2][1]
+            return [lambda rest, ind, i=i, v=v: f"match shape[{i}]? with\n{ind}| none => .error .panic\n{ind}| some {v} =>\n{ind}  {rest(ind + '  ')}"], v
+        if k == "var" and last(e[1]) == "MINIMUM_DATA_LENGHT":
+            return [], "minLen"
+        raise Unavailable(f"builder expression {k}")
+
+    def wrap(self, effs, inner, ind):
+        def go(i, ind):
+            if i == len(effs):
+                return inner(ind)
+            return effs[i](lambda ind2: go(i + 1, ind2), ind)
+        return go(0, ind)
+
+    def cond(self, c, th, el, ind):
+        if c[0] == "not":
+            return self.cond(c[1], el, th, ind)
+        if c[0] == "and":
+            return self.cond(c[1], lambda i2: self.cond(c[2], th, el, i2), el, ind)
+        if c[0] == "or":
+            return self.cond(c[1], th, lambda i2: self.cond(c[2], th, el, i2), ind)
+        if c[0] == "cmp":
+            ea, a = self.num(c[2])
+            eb, b = self.num(c[3])
+            op = {"<": "<", "<=": "≤", ">": ">", ">=": "≥", "==": "=", "!=": "≠"}[c[1]]
+            return self.wrap(ea + eb, lambda i2: f"if {a} {op} {b} then\n{i2}  {th(i2 + '  ')}\n{i2}else\n{i2}  {el(i2 + '  ')}", ind)
+        if c[0] == "matches" and c[1][0] == "method" and c[1][2] == "monotonic_prop" and c[1][1][0] == "var" and c[1][1][1] in self.axes:
+            pat = Auto(False).pat(c[2])
+            m = self.fresh("m")
+            ax = self.axes[c[1][1][1]]
+            return (f"match mono_prop {ax} with\n{ind}| .error e => .error e\n{ind}| .ok {m} =>\n{ind}  "
+                    f"if (match {m} with | {pat} => true | _ => false) then\n{ind}    {th(ind + '    ')}\n{ind}  else\n{ind}    {el(ind + '    ')}")
+        raise Unavailable(f"builder condition {c[0]}")
+
+    def err(self, e):
+        if e[0] == "call" and last(e[1]) == "Err" and e[2] and e[2][0][0] == "call" and last(e[2][0][1]) in BKIND:
+            return f".error (.builder {BKIND[last(e[2][0][1])]})"
+        raise Unavailable("builder error value")
+
+    def stmts(self, ss, ind):
+        if not ss:
+            raise Unavailable("no call of the strategy's build found")
+        s, rest = ss[0], ss[1:]
+        if s[0] == "let" and s[1][0] == "struct":
+            return self.stmts(rest, ind)              # `let Interp1DBuilder { x, data, strategy } = self;`
+        if s[0] == "let" and s[2][0] == "try" and s[2][1][0] == "method" and s[2][1][2] == "build":
+            return self.result                        # the strategy's own build: end of the validation prefix
+        if s[0] == "expr" and s[1][0] == "if" and s[1][3] is None:
+            th = s[1][2]
+            if not (len(th[1]) == 1 and th[1][0][0] == "return" and th[2] is None):
+                raise Unavailable("validation step is not `if cond { return Err(..) }`")
+            e = self.err(th[1][0][1])
+            return self.cond(s[1][1], lambda i2: e, lambda i2: self.stmts(rest, i2), ind)
+        raise Unavailable(f"builder statement {s[0]}")
+
+
+def default_axis_expr(e):
+    """`Array::from_iter((0..N).map(|n| cast(n).unwrap_or_else(..)))` -> Lean list, N from the data's shape"""
+    if not (e[0] == "call" and last(e[1]) == "from_iter" and len(e[2]) == 1):
+        raise Unavailable("default axis is not built by from_iter")
+    m = e[2][0]
+    if not (m[0] == "method" and m[2] == "map" and m[1][0] == "range" and m[1][1] == ("num", "0") and len(m[3]) == 1 and m[3][0][0] == "closure"):
+        raise Unavailable("default axis is not `(0..len).map(..)`")
+    cl = m[3][0]
+    body = cl[2][2]
+    if not (len(cl[1]) == 1 and body and body[0] == "method" and body[2] == "unwrap_or_else" and body[1] == ("call", "cast", [("var", cl[1][0])])):
+        raise Unavailable("default axis elements are not `cast(n)`")
+    return m[1][2]
+
+
+def shape_len(e, lets):
+    """`data.shape().first().copied().unwrap_or(0)` / `data.shape().get(1).copied().unwrap_or(0)` (possibly through a `let`)"""
+    if e[0] == "var" and e[1] in lets:
+        e = lets[e[1]]
+    if not (e[0] == "method" and e[2] == "unwrap_or" and e[3] == [("num", "0")] and e[1][0] == "method" and e[1][2] == "copied"):
+        raise Unavailable("default axis length")
+    g = e[1][1]
+    if g == ("method", ("method", ("var", "data"), "shape", []), "first", []):
+        return "(shape[0]?).getD 0"
+    if g[0] == "method" and g[2] == "get" and g[1] == ("method", ("var", "data"), "shape", []) and len(g[3]) == 1 and g[3][0][0] == "num":
+        return f"(shape[{g[3][0][1]}]?).getD 0"
+    raise Unavailable("default axis length")
+
+
+def default_axes(code, names):
+    """the axes `…Builder::new` installs: field name -> Lean length expression"""
+    b = parse_fn(code, r"pub\s+fn\s+new\s*\(")
+    lets = {s[1][1]: s[2] for s in b[1] if s[0] == "let" and s[1][0] == "var"}
+    tail = b[2]
+    if not (tail and tail[0] == "struct"):
+        raise Unavailable("`new` does not end in a struct literal")
+    out = {}
+    for f, v in tail[2]:
+        if f in names:
+            if v[0] == "var" and v[1] in lets:
+                v = lets[v[1]]
+            out[f] = shape_len(default_axis_expr(v), lets)
+    if set(out) != set(names):
+        raise Unavailable("default axes not found")
+    return out
+
+
+def gen_builders(src_dir, out, all_unavailable=False):
+    def rd(f):
+        try:
+            return strip_comments(open(os.path.join(src_dir, f)).read())
+        except OSError:
+            return None
+
+    def add(name, sig, body, fallback):
+        try:
+            if all_unavailable:
+                raise Unavailable("translator output was rejected by Lean")
+            out.add(name, sig, body(), fallback=fallback)
+            out.status[name] = "translated"
+        except (Unavailable, TypeError, AttributeError, KeyError, IndexError) as e:
+            out.defs.append({"name": name, "sig": sig, "body": None, "fallback": fallback, "suffix": "", "depends": []})
+            out.status[name] = f"unavailable: {e}"
+
+    c1, c2 = rd("interp1d/mod.rs"), rd("interp2d/mod.rs")
+    add("builder1_default_x", "{α : Type} [NatCast α] (shape : List Nat) : List α",
+        lambda: "(List.range (" + default_axes(c1, ["x"])["x"] + ")).map (fun (n : Nat) => (n : α))", "defaultAxis (shape.headD 0)")
+    add("builder1_validate", "{α : Type} [Cmp α] (minLen : Nat) (xs : List α) (shape : List Nat) : Except Fault (List α)",
+        lambda: Build({"x": "xs"}, ".ok xs").stmts([s for s in parse_fn(c1, r"pub\s+fn\s+build\s*\(\s*self\s*\)")[1]], "  "),
+        "validate1 minLen (some xs) ⟨shape, []⟩")
+    add("builder2_default_x", "{α : Type} [NatCast α] (shape : List Nat) : List α",
+        lambda: "(List.range (" + default_axes(c2, ["x", "y"])["x"] + ")).map (fun (n : Nat) => (n : α))", "defaultAxis (shape.headD 0)")
+    add("builder2_default_y", "{α : Type} [NatCast α] (shape : List Nat) : List α",
+        lambda: "(List.range (" + default_axes(c2, ["x", "y"])["y"] + ")).map (fun (n : Nat) => (n : α))", "defaultAxis ((shape.drop 1).headD 0)")
+    add("builder2_validate", "{α : Type} [Cmp α] (minLen : Nat) (xs ys : List α) (shape : List Nat) : Except Fault (List α × List α)",
+        lambda: Build({"x": "xs", "y": "ys"}, ".ok (xs, ys)").stmts([s for s in parse_fn(c2, r"pub\s+fn\s+build\s*\(\s*self\s*\)")[1]], "  "),
+        "validate2 minLen (some xs) (some ys) ⟨shape, []⟩")
+
+
 # ------------------------------------------------------------------------------------------------ output
 
 
@@ -1175,6 +1348,7 @@ def translate(src_dir, all_unavailable=False):
                 out.defs.append({"name": name, "sig": sig, "body": None, "fallback": fb, "suffix": "", "depends": []})
                 out.status[name] = f"unavailable: {e}"
     gen_strategies(src_dir, out, all_unavailable)
+    gen_builders(src_dir, out, all_unavailable)
     return out
 
 
@@ -1182,7 +1356,7 @@ def emit(out):
     L = ["/-", "GENERATED by tools/translate_control.py from /repo/src/vector_extensions.rs on every run — do not edit.",
          "The control flow of `MonotonicState::{start, update, short_circuit, finish}`, `monotonic_prop` and `get_lower_index`,",
          "statement by statement, as it is in the source now.  `NdInterp/Props/FormulaTie/Ctl.lean` proves each function equal to the",
-         "hand-written model for every input.", "-/", "import NdInterp.Model.Spline", "",
+         "hand-written model for every input.", "-/", "import NdInterp.Model.Interp", "",
          "set_option linter.unusedVariables false", "", "namespace NdInterp.GenCtl", "open NdInterp", ""]
     for d in out.defs:
         ok = d["body"] is not None
